@@ -124,7 +124,7 @@ def run_case(case, work, rec):
     nrun = 0
     for si, sel in enumerate(sels):
         for limit in ([None] + list(range(finest + 1)) if si < 4 else [rng.choice([None] + list(range(finest + 1)))]):
-            out = os.path.join(work, f"out_{si}_{limit}")
+            out = workload.out_path(work, f"out_{si}_{limit}", si + (limit or 0), rec)
             key = (digest, tuple(sel), limit)
             descr = f"variables={sel} limit_level={limit}"
             # the requested output may exist already: an empty directory prepared by the caller, or the result
